@@ -6,8 +6,10 @@
 From GV Require Export Compiler.Parser.
 Open Scope N_scope.
 
-(** one SourceMap.Add call: the token (lit, line, col) and the target start position *)
-Record smadd := mkAdd { sa_lit : bytes; sa_line : Z; sa_col : Z; sa_tline : Z; sa_tcol : Z }.
+(** one SourceMap.Add call: the token (lit, line, col) and the target start position.
+    [sa_text] is a ghost field: the text whose write returned that position (not part of the Go data,
+    not compared by the correspondence check; the proofs of C07 speak about it). *)
+Record smadd := mkAdd { sa_lit : bytes; sa_line : Z; sa_col : Z; sa_tline : Z; sa_tcol : Z; sa_text : bytes }.
 
 Record wshared := mkWS {
   w_out : list bytes;     (* chunks written, most recent first *)
@@ -124,22 +126,22 @@ Definition reset_var_name (st : est) : est :=
   let w := fst st in (mkWS (w_out w) 0 (w_line w) (w_col w) (w_adds w) (w_err w), snd st).
 
 (** tw.Add (only records when a source map is attached: [with_sm]) *)
-Definition tw_add (with_sm : bool) (t : token) (from : Z * Z) (st : est) : est :=
+Definition tw_add (with_sm : bool) (t : token) (written : bytes) (from : Z * Z) (st : est) : est :=
   let w := fst st in
   match w_err w with
   | Some _ => st
   | None =>
     if with_sm then
       (mkWS (w_out w) (w_num w) (w_line w) (w_col w)
-            (mkAdd (t_lit t) (t_line t) (t_col t) (fst from) (snd from) :: w_adds w) None, snd st)
+            (mkAdd (t_lit t) (t_line t) (t_col t) (fst from) (snd from) written :: w_adds w) None, snd st)
     else st
   end.
 
 (** the recurring pair "write a fragment, record where it went" *)
 Definition tw_write_add (with_sm : bool) (s : bytes) (t : token) (st : est) : est :=
-  tw_add with_sm t (fst (tw_write s st)) (snd (tw_write s st)).
+  tw_add with_sm t s (fst (tw_write s st)) (snd (tw_write s st)).
 Definition tw_write_indent_add (with_sm : bool) (s : bytes) (t : token) (st : est) : est :=
-  tw_add with_sm t (fst (tw_write_indent s st)) (snd (tw_write_indent s st)).
+  tw_add with_sm t s (fst (tw_write_indent s st)) (snd (tw_write_indent s st)).
 
 Definition var_name_of (st : est) : bytes := fst (get_var_name st).
 Definition after_var (st : est) : est := snd (get_var_name st).
